@@ -1,11 +1,17 @@
 /-
   Driver engine `contains`:  `contains <content-hex> <needle-hex>+`  →  true | false
+  `containsgen <len> <fill> <off1> <part1-hex> <off2> <part2-hex> <needle-hex>+`: the content is `len`
+  bytes `fill` with the two parts written at their offsets (large contents without large scripts).
   Any other line (e.g. the round-trip operations, which are checked by the Go-side oracle
   only) is answered `unmodelled`.
 -/
 import AferoVerif.Model.Contains
 namespace AferoVerif.Engine.Contains
 open AferoVerif Script
+
+/-- overwrite `part` into `c` at offset `off` (clipped to the content's length) -/
+def splice (c : List UInt8) (off : Nat) (part : List UInt8) : List UInt8 :=
+  (c.take off ++ part ++ c.drop (off + part.length)).take c.length
 
 def stepLine (s : Unit) (line : String) : Unit × String :=
   match tokens line with
@@ -14,6 +20,11 @@ def stepLine (s : Unit) (line : String) : Unit × String :=
     match bytesOfHex c, ns.mapM bytesOfHex with
     | some c, some ns => (s, if containsAny c ns then "true" else "false")
     | _, _ => (s, "bad-op")
+  | "containsgen" :: len :: fill :: o1 :: p1 :: o2 :: p2 :: ns =>
+    match len.toNat?, fill.toNat?, o1.toNat?, bytesOfHex p1, o2.toNat?, bytesOfHex p2, ns.mapM bytesOfHex with
+    | some len, some fill, some o1, some p1, some o2, some p2, some ns =>
+      (s, if containsAny (splice (splice (List.replicate len (UInt8.ofNat fill)) o1 p1) o2 p2) ns then "true" else "false")
+    | _, _, _, _, _, _, _ => (s, "bad-op")
   | _ => (s, "unmodelled")
 
 end AferoVerif.Engine.Contains
